@@ -520,6 +520,8 @@ def stage_c(ctx, procs):
         sc = scout_names(saved, plain)
         hitn = [nm for i, nm in enumerate(plain) if sc[i + 1][2]]
         extra = [nm + [K.DIGEST] for nm in hitn[:40] + ctx.rng.sample(plain, min(10, len(plain)))] + [[K.DIGEST]]
+        # ... while a trailing ParametersSha256Digest component is a component like any other (seed round 7)
+        extra += [nm + [K.PDIGEST] for nm in hitn[:15] + ctx.rng.sample(plain, min(5, len(plain)))] + [[K.PDIGEST]]
         allnames = rec['names'] + extra
         scout = scout_names(saved, allnames)
         # the history of the two long-lived checkers (direct, reloaded) and of the checkers constructed meanwhile
